@@ -16,6 +16,7 @@ import json
 from fractions import Fraction as F
 
 from vp.core import Check, Failure, enc, load_corpus
+from vp.core import reraise_harness_fault as core_reraise
 
 META = dict(
     level_text="Lean 4 theorems over a model of units.py and of the pint/decimal arithmetic it uses (28-digit "
@@ -69,6 +70,42 @@ REF: dict[str, tuple[F, F]] = {k: (F(s), F(o)) for k, (s, o) in {
     "LMH/bar": (1, 0), "L/m2/h/bar": (1, 0), "L/h/m2/bar": (1, 0),
     "LMH": (1, 0), "L/m2/h": (1, 0), "L/h/m2": (1, 0),
 }.items()}
+
+
+# Which spellings denote units of one physical quantity — written down independently of the code, like REF.
+# Units of one group must be comparable with each other whatever their spelling, units of different groups must not.
+SAME_QUANTITY: list[list[str]] = [
+    ["s", "min", "h", "ms"], ["m", "cm"], ["m**2", "m2", "dm2", "cm2"], ["kg", "g"], ["kg/L", "g/L"],
+    ["K", "degC", "°C", "degF", "°F"], ["mol"], ["L", "mL"], ["L/h", "L/min", "L/d"], ["Hz", "kHz"],
+    ["Pa", "pascal", "bar"], ["kg/h", "g/s", "g/min", "g/h"], ["mS/cm", "µS/cm"], ["%"], ["vol%"], ["wt%"], ["mol%"], ["CV"],
+    ["AU", "mAU", "milliAU"], ["LMH/bar", "L/m2/h/bar", "L/h/m2/bar"], ["LMH", "L/m2/h", "L/h/m2"],
+]
+# a volume, a weight and a mole fraction are different things; whether a plain '%' may be compared with them is a
+# design choice the oracle does not take sides on: pairs of two different members are not judged
+PERCENT_FAMILY = {"%", "vol%", "wt%", "mol%"}
+GROUP_OF = {u: i for i, g in enumerate(SAME_QUANTITY) for u in g}
+assert set(GROUP_OF) == set(REF), "REF and SAME_QUANTITY list the same units"
+
+
+def judge_comparability(comparable: dict) -> list[Failure]:
+    """`comparable`: (ua, ub) -> 'T' | 'F' | err…  over ordered pairs of unit names.  Order independence for all pairs;
+    for the units the oracle knows: same quantity ⇔ comparable, in whatever spelling."""
+    fails = []
+    for (a, b), r in comparable.items():
+        if str(a) <= str(b) and (b, a) in comparable and r != comparable[(b, a)]:
+            fails.append(Failure("comparability-asymmetric", {"ua": a, "ub": b},
+                                 f"are_comparable({a!r}, {b!r}) = {r} but are_comparable({b!r}, {a!r}) = {comparable[(b, a)]}"))
+        if a in GROUP_OF and b in GROUP_OF and not (a != b and a in PERCENT_FAMILY and b in PERCENT_FAMILY):
+            same = GROUP_OF[a] == GROUP_OF[b]
+            pair = "|".join(sorted([a, b]))
+            if same and r != "T":
+                fails.append(Failure(f"same-quantity-not-comparable:{pair}", {"ua": a, "ub": b},
+                                     f"are_comparable({a!r}, {b!r}) = {r} although both are units of one quantity "
+                                     f"({', '.join(SAME_QUANTITY[GROUP_OF[a]])})"))
+            if not same and r != "F":
+                fails.append(Failure(f"different-quantities-comparable:{pair}", {"ua": a, "ub": b},
+                                     f"are_comparable({a!r}, {b!r}) = {r} although they are units of different quantities"))
+    return fails
 
 
 def uenc(u) -> str:
@@ -333,6 +370,129 @@ def gen_compare_cases(ctx: Check, U) -> list[dict]:
     return cases
 
 
+# ----------------------------------------------------------------------------------------------------------
+# comparisons AFTER other calls on the same thread (compare_values must not depend on what was called before)
+
+def in_fresh_thread(fn):
+    """run fn in a new thread (new threads start with the default decimal context, no thread-local leftovers)"""
+    import threading
+    box: dict = {}
+
+    def target():
+        try:
+            box["r"] = fn()
+        except BaseException as e:  # noqa: BLE001
+            box["e"] = e
+    t = threading.Thread(target=target)
+    t.start()
+    t.join()
+    if "e" in box:
+        raise box["e"]
+    return box["r"]
+
+
+def do_call(U, call: list) -> str:
+    """one call of a public function of units.py (or of the Tag methods that convert) — result irrelevant, errors kept"""
+    from openpectus.lang.exec.tags import Tag
+    kind, a = call[0], call[1:]
+    if kind not in ("convert", "tag-set", "tag-simulate", "compatible", "comparable", "compare", "supported", "quantity"):
+        raise AssertionError(kind)
+    try:
+        if kind == "convert":
+            return repr(U.convert_value_to_unit(float(a[0]) if "." in a[0] else int(a[0]), a[1], a[2]))
+        if kind == "tag-set":
+            t = Tag("T", unit=a[0])
+            t.set_value_and_unit(float(a[1]), a[2], 1.0)
+            return repr(t.get_value())
+        if kind == "tag-simulate":
+            t = Tag("T", unit=a[0])
+            t.simulate_value_and_unit(float(a[1]), a[2], 1.0)
+            return repr(t.simulated_value)
+        if kind == "compatible":
+            return repr(U.get_compatible_unit_names(a[0]))
+        if kind == "comparable":
+            return repr(U.are_comparable(a[0], a[1]))
+        if kind == "compare":
+            return repr(U.compare_values(a[0], a[1], a[2], a[3], a[4]))
+        if kind == "supported":
+            return repr((len(U.get_supported_units()), U.is_supported_unit(a[0]), len(U.get_volume_units())))
+        return repr(U.get_unit_quantity_name(a[0]))
+    except Exception as e:  # noqa: BLE001
+        core_reraise(e)
+        return classify(e)
+
+
+def gen_pre_calls(rng, U) -> list[list]:
+    groups = [g for g in SAME_QUANTITY if len(g) > 1]
+    sup = [u for u in U.get_supported_units() if u is not None]
+    calls = []
+    for _ in range(rng.randrange(1, 5)):
+        r = rng.random()
+        g = rng.choice(groups)
+        a, b = rng.sample(g, 2)
+        v = rng.choice(["68", "1.5", "0", "250", "37.25", "-40", "1000000", "0.001"])
+        if r < 0.3:
+            calls.append(["convert", v, a, b if rng.random() < 0.85 else rng.choice(sup)])
+        elif r < 0.45:
+            calls.append(["tag-set", a, v, b])
+        elif r < 0.6:
+            calls.append(["tag-simulate", a, v, b])
+        elif r < 0.7:
+            calls.append(["compatible", rng.choice(sup + ["X"])])
+        elif r < 0.8:
+            calls.append(["comparable", a, rng.choice(sup)])
+        elif r < 0.9:
+            calls.append(["compare", rng.choice(OPS), rand_decimal(rng), a, rand_decimal(rng), b])
+        elif r < 0.95:
+            calls.append(["supported", rng.choice(sup + ["X"])])
+        else:
+            calls.append(["quantity", rng.choice(sup + ["X"])])
+    return calls
+
+
+def gen_after_calls_cases(ctx: Check, U) -> list[dict]:
+    """every ordered pair of different units of one quantity × a few value pairs (the kinds of the compare stream),
+    each preceded by 1–4 calls of the other public functions; plus the fixed scenario of a tag simulated in another
+    unit before two lengths are compared"""
+    rng = ctx.rng
+    cases = [{"pre": [["tag-simulate", "degC", "68", "degF"]], "ua": "m", "ub": "cm", "va": "1.00000000000000000001",
+              "vb": "100.000000000000000001", "kind": "fixed"},
+             {"pre": [["convert", "68", "degF", "degC"]], "ua": "s", "ub": "min", "va": "60.0000000000000000006",
+              "vb": "1.00000000000000000001", "kind": "fixed"},
+             {"pre": [["tag-set", "L", "250", "mL"]], "ua": None, "ub": None, "va": "1.00000000000000000001",
+              "vb": "1.00000000000000000002", "kind": "fixed"}]
+    k = ctx.n(2, 40)
+    for g in SAME_QUANTITY:
+        for ua in g:
+            for ub in g:
+                if ua == ub:
+                    continue
+                for va, vb, kind in value_pairs(rng, ua, ub, k):
+                    cases.append({"pre": gen_pre_calls(rng, U), "ua": ua, "ub": ub, "va": va, "vb": vb, "kind": kind})
+    return cases
+
+
+def observe_after_calls(case: dict) -> dict:
+    """the comparison on a fresh thread, and (on another fresh thread) after the case's calls"""
+    U = _units()
+    alone = in_fresh_thread(lambda: impl_cmp(case)[0])
+
+    def sequence():
+        pre = [do_call(U, c) for c in case["pre"]]
+        return pre, impl_cmp(case)[0]
+    pre, after = in_fresh_thread(sequence)
+    return {"alone": alone, "pre": pre, "after": after}
+
+
+def judge_after_calls(case: dict, obs: dict, comparable: bool) -> list[Failure]:
+    fails = judge(case, dict(zip(OPS, obs["after"].split(" "))), comparable)
+    if obs["after"] != obs["alone"]:
+        fails.append(Failure("comparison-depends-on-earlier-calls", case,
+                             f"{case['va']} {case['ua']} vs {case['vb']} {case['ub']}: operators {' '.join(OPS)} answer "
+                             f"{obs['alone']} on a fresh thread and {obs['after']} after {case['pre']} on the same thread"))
+    return fails
+
+
 def gen_malformed_cases(ctx: Check, U) -> list[dict]:
     rng = ctx.rng
     sup = [u for u in U.get_supported_units()]
@@ -409,7 +569,11 @@ def run(ctx: Check) -> int:
     ctx.rule = ("comparability: ALL ordered pairs over the supported units, None and unsupported names (exhaustive). "
                 "compare: every ordered pair of units of one quantity (and None/None) × decimal-string pairs of the kinds "
                 "random / equal-after-exact-conversion / neighbours at 1e-3…1e-35 / 18–40-digit values / exponent forms / "
-                "negative; all 7 operators per case. malformed: non-numeric values, unknown units, invalid operators. "
+                "negative; all 7 operators per case. malformed: non-numeric values, unknown units, invalid operators. after-calls: every ordered pair of "
+                "different units of one quantity × value pairs of the same kinds, each compared on a fresh thread and, on "
+                "another fresh thread, after 1–4 calls of the other public functions (convert_value_to_unit, "
+                "Tag.set_value_and_unit / simulate_value_and_unit with another unit, get_compatible_unit_names, "
+                "are_comparable, compare_values, …): same exactness oracle, and both answers must agree. "
                 "Non-trivial = units differ (a conversion happens) or a value has more than 17 significant digits.")
 
     # -- stream "names": comparability over ALL ordered pairs of unit names, and the compatible names of every unit
@@ -434,13 +598,13 @@ def run(ctx: Check) -> int:
     comparable = {(p["ua"], p["ub"]): o[0] for p, o in zip(pairs, cout)}
     for p in pairs:
         ctx.count("comparable:" + comparable[(p["ua"], p["ub"])][:3])
-    # oracle: order independence
-    for p in pairs:
-        a, b = p["ua"], p["ub"]
-        if comparable[(a, b)] != comparable[(b, a)] and str(a) <= str(b):
-            ctx.fail(Failure("comparability-asymmetric", {"ua": a, "ub": b},
-                             f"are_comparable({a!r}, {b!r}) = {comparable[(a, b)]} but "
-                             f"are_comparable({b!r}, {a!r}) = {comparable[(b, a)]}"))
+    # oracle: order independence; same quantity <=> comparable, in whatever spelling (alias x alias pairs included)
+    for f in judge_comparability(comparable):
+        ctx.fail(f)
+    ctx.count("comparability-oracle:same-quantity-pairs",
+              sum(1 for (a, b) in comparable if a in GROUP_OF and b in GROUP_OF and GROUP_OF[a] == GROUP_OF[b]))
+    ctx.count("comparability-oracle:different-quantity-pairs",
+              sum(1 for (a, b) in comparable if a in GROUP_OF and b in GROUP_OF and GROUP_OF[a] != GROUP_OF[b]))
 
     # -- stream "compare": compare_values on all comparable pairs (7 operators per case) + malformed
     #    values / units / operators (one operator per case)
@@ -473,6 +637,17 @@ def run(ctx: Check) -> int:
             ctx.fail(f)
     for c, o in zip(mal, iout[len(cases):]):
         ctx.count("malformed-outcome:" + (o[0] if o[0].startswith("err") else "answers"))
+
+    # -- stream "after-calls": the same comparisons after calls of the other public functions on the same thread
+    acases = gen_after_calls_cases(ctx, U)
+    aobs = {id(c): observe_after_calls(c) for c in acases}
+    ctx.correspond("after-calls", "Units", acases, cmp_lines, lambda c: [aobs[id(c)]["after"]],
+                   nontrivial=lambda c, o: any(p[0] in ("convert", "tag-set", "tag-simulate") for p in c["pre"]))
+    for c in acases:
+        for p in c["pre"]:
+            ctx.count("after-calls:pre:" + p[0])
+        for f in judge_after_calls(c, aobs[id(c)], res(lambda: U.are_comparable(c["ua"], c["ub"])) == "T"):
+            ctx.fail(f)
     ctx.exhaustive = False
     ctx.extra["exhaustive_scopes"] = ["names: all ordered pairs of unit names (are_comparable), all unit names "
                                       "(get_compatible_unit_names)",
@@ -481,6 +656,7 @@ def run(ctx: Check) -> int:
         "values are finite decimal literals or strings decimal.Decimal rejects (no NaN/Infinity, no non-ASCII digits, "
         "|exponent| <= 60)",
         "the unit set is the one units.py defines at import (no add_unit at run time)",
+        "whether '%', 'vol%', 'wt%', 'mol%' may be compared with each other is not judged by the comparability oracle",
         "pint 0.25 Decimal arithmetic is modelled (28 digits, half even) and validated differentially",
         "the oracle's exact unit definitions (REF in props/C21.py) are the physical definitions; unknown units are skipped",
     ]
@@ -495,14 +671,14 @@ def search(ctx: Check) -> None:
     for a in names:
         for b in names:
             comparable[(a, b)] = res(lambda: U.are_comparable(a, b))
-    for (a, b), r in comparable.items():
-        if r != comparable[(b, a)]:
-            ctx.fail(Failure("comparability-asymmetric", {"ua": a, "ub": b},
-                             f"are_comparable({a!r}, {b!r}) = {r}, reversed = {comparable[(b, a)]}"))
-            break
+    for f in judge_comparability(comparable):
+        ctx.fail(f)
     for c in gen_compare_cases(ctx, U):
         r = dict(zip(OPS, impl_cmp(c)[0].split(" ")))
         for f in judge(c, r, comparable.get((c["ua"], c["ub"])) == "T"):
+            ctx.fail(f)
+    for c in gen_after_calls_cases(ctx, U):
+        for f in judge_after_calls(c, observe_after_calls(c), comparable.get((c["ua"], c["ub"])) == "T"):
             ctx.fail(f)
 
 
@@ -535,15 +711,25 @@ def replay(obj) -> int:
         r1, r2 = res(lambda: U.are_comparable(a, b)), res(lambda: U.are_comparable(b, a))
         m = drive("Units", [[f"cmpable\t{uenc(a)}\t{uenc(b)}"], [f"cmpable\t{uenc(b)}\t{uenc(a)}"]])
         print(f"are_comparable({a!r}, {b!r}) = {r1}   reversed = {r2}   model: {m[0][0]} / {m[1][0]}")
-        return 1 if r1 != r2 else 0
-    out = impl_cmp(c)[0]
+        fails = judge_comparability({(a, b): r1, (b, a): r2})
+        for f in fails:
+            print(f"oracle: {f.key}: {f.detail}")
+        return 1 if fails else 0
+    obs = None
+    if "pre" in c:   # a case of the after-calls stream
+        obs = observe_after_calls(c)
+        print(f"on a fresh thread:       {obs['alone']}")
+        for call, r in zip(c["pre"], obs["pre"]):
+            print(f"then, on another thread: {call} -> {r}")
+    out = obs["after"] if obs else impl_cmp(c)[0]
     m = drive("Units", [cmp_lines(c), cmp_lines(c, "cmpold")])
     print(f"case: {c['va']!r} {c['ua']!r}  vs  {c['vb']!r} {c['ub']!r}")
     print("operators:       " + "  ".join(f"{o:>3}" for o in OPS))
     print("implementation:  " + "  ".join(f"{x:>3}" for x in out.split(" ")))
     print("model (repaired):" + "  ".join(f"{x:>3}" for x in m[0][0].split(" ")))
     print("model (as-is):   " + "  ".join(f"{x:>3}" for x in m[1][0].split(" ")))
-    fails = judge(c, dict(zip(OPS, out.split(" "))), res(lambda: U.are_comparable(c["ua"], c["ub"])) == "T")
+    cmpable = res(lambda: U.are_comparable(c["ua"], c["ub"])) == "T"
+    fails = judge_after_calls(c, obs, cmpable) if obs else judge(c, dict(zip(OPS, out.split(" "))), cmpable)
     for f in fails:
         print(f"oracle: {f.key}: {f.detail}")
     if not fails:
